@@ -292,7 +292,11 @@ def build_harness(race=False, timeout=900):
     binp = os.path.join(BUILD, "storageharness" + ("_race" if race else ""))
     with Lock("harness"):
         prepare_go_module(HARNESS)
-        cmd = ["go", "build"] + (["-race"] if race else []) + ["-o", binp, "./cmd/storageharness"]
+        cmd = ["go", "build"] + (["-race"] if race else [])
+        if os.environ.get("VERIF_COVER"):
+            # coverage survey of /repo by the checks (lib/coverage_survey.sh): never set by a registered command
+            cmd += ["-cover", "-coverpkg=github.com/openziti/storage/..."]
+        cmd += ["-o", binp, "./cmd/storageharness"]
         rc, out = run(cmd, cwd=HARNESS, env=GOENV, timeout=timeout)
         if rc != 0:
             return None, out
